@@ -78,6 +78,9 @@ type SessCfg struct {
 	AuthMeth  []string            `json:"authmethods,omitempty"`
 	Secret    string              `json:"secret,omitempty"`
 	NoJoin    bool                `json:"nojoin,omitempty"` // do not join in the prologue; a "join" op does it
+	TransportAuth bool            `json:"transport_auth,omitempty"` // attach with transport details carrying auth data (websocket)
+	RecvLimit int                 `json:"recv_limit,omitempty"`     // server-side rawsocket receive limit
+	Serializer string             `json:"serializer,omitempty"`     // serializer of the server side for raw websocket links
 }
 
 // Op is one abstract operation. Ids are references resolved at run time.
